@@ -169,6 +169,9 @@ type World struct {
 	burstLeft int
 	stallNode uint64 // generator state: node whose append acknowledgements are held back until stallEnd
 	stallEnd  int
+	stallStart int
+	rivalA, rivalB uint64 // rival-leaders profile: the leader at the start of the window and its rival
+	rivalStage int
 	phaseEnd int
 	Trace []Action
 	Log   []string
